@@ -46,6 +46,13 @@ def corpus(rng, quick):
     struct.pack_into("=H", b, 14, 0)
     struct.pack_into("=I", b, 8, 71)
     out.append(("gen0-and-size71", bytes(b)))
+    # every pair of header defects (good magic): declared size x version x generation
+    for size in [0, 1, 4, 8, 15, 16, 40, 71]:
+        for version, generation in [(0, 6), (1, 0), (0, 0)]:
+            b = bytearray(valid)
+            struct.pack_into("=I", b, 8, size)
+            struct.pack_into("=HH", b, 12, version, generation)
+            out.append(("size%d-ver%d-gen%d" % (size, version, generation), bytes(b)))
     # header valid, body random / shorter than the record
     for n in [16, 17, 24, 40, 64, 71]:
         out.append(("valid-header-len%d" % n, valid[:n]))
